@@ -161,6 +161,17 @@ class TNCtor(TNCore):
         if m in ('bose', 'fermi'):
             t, U, mu = op['params']
             return (self.L < 2 or t == 0) and U == 0 and mu == 0
+        if m in ('mol', 'spinmol'):
+            # optimised constructions go through from_opchains: all coefficients zero <=> empty chain list
+            t, v = mol_coeffs(self.L, op['sub'], op.get('structure', 'sym'))
+            if np.any(t != 0):
+                return False
+            if m == 'mol':
+                g = 0.5 * (v - v.transpose(1, 0, 2, 3) - v.transpose(0, 1, 3, 2) + v.transpose(1, 0, 3, 2))
+                return not np.any(g != 0)
+            g0 = 0.5 * (v + v.transpose(1, 0, 3, 2))
+            g1 = 0.5 * (v.transpose(1, 0, 2, 3) + v.transpose(0, 1, 3, 2))
+            return not (np.any(g0 != 0) or np.any(g1 != 0))
         return False
 
     def op_ham(self, op):
@@ -175,7 +186,7 @@ class TNCtor(TNCore):
         o = self.finish_new('mpo', ref, 'ham:' + op['model'], op)
         if o.retired:
             return 'ok'
-        if op.get('generic') and op['model'] in ('xxz', 'spin1', 'bose', 'fermi', 'ising', 'mol', 'spinmol') and self.L >= 2 and self.d >= 2:
+        if op.get('generic') and op.get('structure') != 'sparse' and op['model'] in ('xxz', 'spin1', 'bose', 'fermi', 'ising', 'mol', 'spinmol') and self.L >= 2 and self.d >= 2:
             self.c20_ranks(o, op)
         return 'ok'
 
